@@ -168,11 +168,53 @@ func parseDraws(s string) []int {
 	return d
 }
 
+// layout of the slice handed to the sorts: by default a fresh slice with cap == len; after the op
+// "win pre post capx" a window whole[pre : pre+n : pre+n+capx] of a larger backing array with pre guard
+// elements before and post guard elements behind it (capx <= post; capx == post is the two-index
+// slice whole[pre:pre+n], pre == 0 is a prefix buf[:n] of a larger buffer).  After every call the
+// guard elements must be unchanged: a sort owns only the slice it was given.
+type layout struct{ on bool; pre, post, capx int }
+
 type state struct {
 	head string
 	c    []kt
 	u    []uint64
 	s    []string
+	lay  layout
+}
+
+func mkWin[T any](lay layout, elems []T, g func(int) T) (whole, win []T) {
+	n := len(elems)
+	if !lay.on {
+		win = append([]T(nil), elems...)
+		return win, win
+	}
+	whole = make([]T, lay.pre+n+lay.post)
+	for i := range whole {
+		whole[i] = g(i)
+	}
+	copy(whole[lay.pre:], elems)
+	return whole, whole[lay.pre : lay.pre+n : lay.pre+n+lay.capx]
+}
+
+// outside reports the first guard element that no longer holds its value ("" if all intact).
+func outside[T comparable](lay layout, whole []T, n int, g func(int) T) string {
+	if !lay.on {
+		return ""
+	}
+	for i := range whole {
+		if (i < lay.pre || i >= lay.pre+n) && whole[i] != g(i) {
+			return fmt.Sprintf("OUTSIDE:whole[%d],window=[%d:%d:%d]", i, lay.pre, lay.pre+n, lay.pre+n+lay.capx)
+		}
+	}
+	return ""
+}
+
+func guardKT(i int) kt     { return kt{1000000 + i, -1000 - i} }
+func guardInt(i int) int   { return int(int64(0x5eedbeef00000000)) + i }
+func guardUint(i int) uint { return 0xdeadbeef00000000 + uint(i) }
+func guardStr(i int) string {
+	return fmt.Sprintf("\x7fguard%d", i)
 }
 
 func (st *state) exec(w *tr.W, op string) {
@@ -212,11 +254,21 @@ func (st *state) exec(w *tr.W, op string) {
 		w.Op(op, "-")
 		return
 	}
+	if f[0] == "win" {
+		st.lay = layout{on: true, pre: max(ai(1), 0), post: max(ai(2), 0)}
+		st.lay.capx = min(max(ai(3), 0), st.lay.post)
+		w.Op(op, "-")
+		return
+	}
 	var res string
+	var out string
 	switch st.head {
 	case "C", "Cd", "C1", "Cr", "Cb":
 		cmpKT := cmpFor(st.head)
-		a := append([]kt(nil), st.c...)
+		whole, a := mkWin(st.lay, st.c, guardKT)
+		defer func() {}()
+		chk := func() { out = outside(st.lay, whole, len(st.c), guardKT) }
+		defer chk()
 		sorter := func(g func([]kt)) string { return guard(func() string { g(a); return showKT(a) }) }
 		switch f[0] {
 		case "Selection":
